@@ -196,6 +196,11 @@ Section Refine.
         * replace (length l + 1)%nat with (S (length l)) by lia.
           rewrite upd_firstn_snoc by lia. rewrite Hfs, map_app. reflexivity.
         * rewrite He. apply first_align_end; auto; [eapply tuple_ok_cnt_ok; eauto|lia].
+      + unfold dend. rewrite Hv. cbn [v_last set_tbl set_mem]. rewrite He.
+        eapply et_snoc; [exact (r_tight _ _ _ _ R)|unfold dend; rewrite Hv; reflexivity|].
+        apply first_align_idem; auto. eapply eo_end_first_align; [exact Hwf|exact Hord| |lia|].
+        * eapply Forall_impl; [|exact (r_tuples _ _ _ _ R)]. intros u Hu. eapply tuple_ok_cnt_ok; eauto.
+        * rewrite first_align_aligned; auto; apply Z.divide_0_r.
     - (* count and stride *)
       destruct Hloc as (Hcnt & Hoffs & Hst). destruct Hst as (Hs0 & HsS & Hsfit).
       set (a := v_stride v * v_count v) in *.
@@ -214,9 +219,21 @@ Section Refine.
         eapply eo_weaken_hi; [eapply eo_snoc; eauto; unfold a; lia|].
         specialize (Hsfit t a Ht Ha0 HaS). unfold a in *. lia.
       + rewrite app_length. cbn [length]. lia.
-      + rewrite Hv. rewrite app_length. cbn [length]. repeat split; auto.
+      + rewrite Hv. rewrite app_length. cbn [length]. split; [|split; [|exact (conj Hs0 (conj HsS Hsfit))]].
         * lia.
         * rewrite Nat.add_1_r, seq_S, map_app. cbn [map Nat.add]. rewrite Hoffs at 1. unfold a. rewrite Hcnt. reflexivity.
+      + unfold dend. rewrite Hv. cbn [v_stride v_count set_count set_mem].
+        pose proof (r_tight _ _ _ _ R) as HT. unfold dend in HT. rewrite Hv in HT.
+        assert (Hidem : first_align L (first_align L (eo_end L 0 offs l)) = first_align L (eo_end L 0 offs l)).
+        { apply first_align_idem; auto. eapply eo_end_first_align; [exact Hwf|exact Hord| |lia|].
+          - eapply Forall_impl; [|exact (r_tuples _ _ _ _ R)]. intros u Hu. eapply tuple_ok_cnt_ok; eauto.
+          - rewrite first_align_aligned; auto; apply Z.divide_0_r. }
+        assert (Hafa : a = first_align L a) by (symmetry; apply first_align_aligned; auto).
+        pose proof (et_snoc L 0 offs l _ a t HT Hafa Hidem) as Hsn.
+        destruct (Hsfit t a Ht Ha0 HaS) as [_ Hex].
+        (* the new end of data is the aligned address behind the new element *)
+        eapply et_set_hi; [exact Hsn|]. right.
+        rewrite eo_end_snoc by auto. rewrite Hex. unfold a. ring.
   Qed.
 
   (* ---------------- resize: pop_back, clear, tail erase ---------------- *)
@@ -260,6 +277,8 @@ Section Refine.
         * rewrite Hv, Hfl. repeat split; auto.
           -- rewrite <- (firstn_firstn_le_ _ n (length l)) by lia. rewrite Hfs. apply firstn_map.
           -- rewrite Hslot. rewrite first_align_aligned; auto.
+        * unfold dend. rewrite Hv. cbn [v_last set_tbl]. rewrite Hslot.
+          eapply et_firstn; [exact (r_tight _ _ _ _ R)|lia].
       + assert (n = length l) by lia. subst n. rewrite firstn_all. exists offs. exact R.
     - destruct Hloc as (Hcnt & Hoffs & Hst).
       exists (firstn n offs). constructor; cbn [v_fixed v_mem v_cap v_count v_stride set_count].
@@ -274,6 +293,12 @@ Section Refine.
           eapply eo_weaken_hi; [eapply eo_firstn; eauto|exact Hle].
       + rewrite Hfl. pose proof (r_cap _ _ _ _ R). lia.
       + rewrite Hv, Hfl. split; [reflexivity|]. split; [|exact Hst]. rewrite Hoffs. apply firstn_map_seq. lia.
+      + pose proof (r_tight _ _ _ _ R) as HT. unfold dend in *. rewrite Hv in *. cbn [v_count v_stride set_count].
+        destruct (Nat.eq_dec n (length l)) as [->|Hneq].
+        * rewrite firstn_all, <- Hlen, firstn_all, Hlen, <- Hcnt. exact HT.
+        * replace (v_stride v * Z.of_nat n) with (nth n offs 0).
+          -- eapply et_firstn; [exact HT|lia].
+          -- rewrite Hoffs. rewrite nth_map_seq by lia. reflexivity.
   Qed.
 
   (* ---------------- reserve ---------------- *)
@@ -310,6 +335,7 @@ Section Refine.
           replace (length l - Init.Nat.min (length l) (length (t_slots (v_tbl v))))%nat with 0%nat by lia.
           cbn [firstn]. rewrite app_nil_r. exact Hfs.
       + exact Hloc.
+    - pose proof (r_tight _ _ _ _ R) as HT. unfold dend in *. destruct (has_varying L); exact HT.
   Qed.
 
   (* ---------------- erase: move the tail forward, then shrink ---------------- *)
@@ -323,6 +349,7 @@ Section Refine.
     - exact (r_order _ _ _ _ R).
     - exact (r_cap _ _ _ _ R).
     - exact (r_loc _ _ _ _ R).
+    - exact (r_tight _ _ _ _ R).
   Qed.
 
   Lemma Forall2_elem_at_shift m m' offs l fc lo hi d :
@@ -353,7 +380,8 @@ Section Refine.
     (SA L | diff) /\
     Forall (tuple_ok L (fixed_counts L (v_fixed v)) 0) l' /\
     Forall2 (fun a t => elem_at L m' a t) offs' l' /\
-    elems_ordered L 0 offs' l' (dend L v - diff).
+    elems_ordered L 0 offs' l' (dend L v - diff) /\
+    elems_tight L 0 offs' l' (dend L v - diff).
   Proof.
     intros R Htf Hfn. cbv zeta.
     pose proof (r_order _ _ _ _ R) as Hord. pose proof (eo_length _ _ _ _ _ Hord) as Hlen.
@@ -382,7 +410,7 @@ Section Refine.
     assert (HoB' : elems_ordered L b0 (skipn from offs) (skipn from l) (dend L v)).
     { rewrite HskB, HskL in *. eapply eo_change_lo; [exact HoB|lia]. }
     pose proof (eo_bounds L Hwf _ _ _ _ HoB') as HbB.
-    split; [exact HdS|]. split; [|split].
+    split; [exact HdS|]. split; [|split; [|split]].
     - apply Forall_app. split; apply Forall_forall; intros t Ht; rewrite Forall_forall in HT; apply HT;
         [eapply In_firstn_; eauto|eapply In_skipn_; eauto].
     - apply Forall2_app.
@@ -401,6 +429,16 @@ Section Refine.
       rewrite HskB, HskL in *. cbn [map] in *.
       replace (dend L v - diff) with (dend L v + - diff) by lia.
       eapply eo_change_lo; [exact Hsh|]. unfold diff. lia.
+    - (* tight packing: the tail is translated as a whole onto the slot of element [to] *)
+      pose proof (r_tight _ _ _ _ R) as HTi.
+      pose proof (et_firstn L to 0 offs l _ HTi ltac:(lia)) as HtA.
+      pose proof (et_skipn L from 0 offs l _ HTi) as HtB.
+      pose proof (et_shift L Hwf _ _ _ _ (- diff) HdS' HtB) as HtS.
+      pose proof (et_nth L to 0 offs l _ HTi ltac:(lia)) as Hnth. fold a_to in Hnth.
+      rewrite HskB, HskL in *. cbn [map] in *.
+      replace (dend L v - diff) with (dend L v + - diff) by lia.
+      eapply et_app; [exact HtA|].
+      eapply et_change_lo; [exact HtS|]. rewrite <- Hnth. unfold diff. lia.
   Qed.
 
   Lemma mmove_zero m src dst x : mmove m src dst 0 x = m x.
@@ -428,7 +466,7 @@ Section Refine.
         apply mmove_zero.
     - assert (Hfn : (from < length l)%nat) by lia.
       pose proof (move_main v l offs to from R Htf Hfn) as HM. cbv zeta in HM.
-      destruct HM as (HdS & HT' & HE' & HO').
+      destruct HM as (HdS & HT' & HE' & HO' & HTi').
       rewrite <- (rep_eaddr v l offs to R ltac:(lia)) in *.
       rewrite <- (rep_eaddr v l offs from R Hfn) in *.
       set (tgt := eaddr L v (Z.of_nat to)) in *. set (src := eaddr L v (Z.of_nat from)) in *.
@@ -477,6 +515,7 @@ Section Refine.
           -- replace (v_last v - diff) with (v_last v + - diff) by lia.
              rewrite first_align_shift by (auto; apply Z.divide_opp_r; auto).
              apply Z.divide_add_r; auto; apply Z.divide_opp_r; auto.
+        * unfold dend in *. rewrite Hv in *. cbn [v_last set_tbl]. exact HTi'.
       + destruct Hloc as (Hcnt & Hoffs & Hst). cbn [andb fst].
         constructor; cbn [v_fixed v_mem v_cap v_count v_stride set_count set_mem].
         * exact HT'.
@@ -492,6 +531,9 @@ Section Refine.
           replace (seq from (length l - from)) with (seq (to + (from - to)) (length l - from)) by (f_equal; lia).
           rewrite <- (seq_shift_by (from - to) to (length l - from)). rewrite map_map. apply map_ext. intros i.
           unfold diff, src, tgt, eaddr. rewrite Hv. lia.
+        * unfold dend in *. rewrite Hv in *. cbn [v_count v_stride set_count set_mem].
+          replace (v_stride v * Z.of_nat N) with (v_stride v * v_count v - diff); [exact HTi'|].
+          unfold diff, src, tgt, eaddr, N. rewrite Hv, Hcnt. rewrite Nat2Z.inj_sub by lia. rewrite Nat2Z.inj_sub by lia. lia.
   Qed.
 
   (* ---------------- the public operations ---------------- *)
@@ -562,7 +604,8 @@ Section Refine.
       + repeat split; auto.
         * rewrite repeat_length. lia.
         * rewrite first_align_aligned; auto; apply Z.divide_0_r.
-      + repeat split; auto; apply Hst; reflexivity.
+      + split; [reflexivity|]. split; [reflexivity|]. apply Hst; reflexivity.
+    - left. unfold dend. cbn [v_last v_stride v_count]. destruct (has_varying L); lia.
   Qed.
 
   (* ---------------- histories ---------------- *)
